@@ -105,6 +105,38 @@ Proof.
   - intros H; inversion H; subst; right. cbn. repeat split; auto. exists b. repeat split; auto.
 Qed.
 
+Lemma hash_cases cfg st r st' o :
+  exchange_get_by_hash cfg st r = (st', o) ->
+  (unchanged st st' /\ (forall h d, o = XHeader h d -> exists b, h_fetch r = Some b /\ h = b_height b /\ d = b_dah b /\ archival cfg = false /\ b_in_window b = false)) \/
+  (crashed st = false /\ crashed st' = false /\ exists b,
+     h_fetch r = Some b /\ o = XHeader (b_height b) (b_dah b) /\ b_chain_ok b = true /\ b_eds_ok b = true /\ h_store_ok r = true /\
+     (archival cfg = true \/ b_in_window b = true) /\
+     store st' = put (b_height b) (mkstored (b_dah b) (b_in_window b || b_empty b) (b_in_window b) (b_empty b)) (store st) /\
+     published st' = published st /\ hashes st' = hashes st /\ given st' = given st ++ [(b_height b, b_dah b)]).
+Proof.
+  unfold exchange_get_by_hash.
+  destruct (crashed st) eqn:Ec; [intros H; inversion H; subst; left; unfold unchanged; repeat split; auto; discriminate|].
+  destruct (h_fetch r) as [b|] eqn:Ef; [|intros H; inversion H; subst; left; unfold unchanged; repeat split; auto; discriminate].
+  destruct (b_chain_ok b) eqn:Eck; cbn [negb]; [|intros H; inversion H; subst; left; unfold unchanged; cbn; repeat split; auto; discriminate].
+  destruct (h_info_ok r) eqn:Ei; cbn [negb]; [|intros H; inversion H; subst; left; unfold unchanged; repeat split; auto; discriminate].
+  destruct (b_eds_ok b) eqn:Ee; cbn [negb]; [|intros H; inversion H; subst; left; unfold unchanged; repeat split; auto; discriminate].
+  destruct (h_hash_ok r) eqn:Eh; cbn [negb]; [|intros H; inversion H; subst; left; unfold unchanged; repeat split; auto; discriminate].
+  intros H. apply exchange_cases in H. cbn [x_fetch x_store_ok] in H. rewrite <- Ef in H |- *. rewrite Ec in H. exact H.
+Qed.
+
+(** the by-hash request only ever keeps (or returns) a block whose header hash is the requested one *)
+Lemma hash_mismatch cfg st r :
+  h_hash_ok r = false ->
+  unchanged st (fst (exchange_get_by_hash cfg st r)) /\ forall h d, snd (exchange_get_by_hash cfg st r) <> XHeader h d.
+Proof.
+  intros Hh. unfold exchange_get_by_hash, unchanged. rewrite Hh.
+  destruct (crashed st); [cbn; repeat split; auto; discriminate|].
+  destruct (h_fetch r) as [b|]; [|cbn; repeat split; auto; discriminate].
+  destruct (b_chain_ok b); cbn [negb]; [|cbn; repeat split; auto; discriminate].
+  destruct (h_info_ok r); cbn [negb]; [|cbn; repeat split; auto; discriminate].
+  destruct (b_eds_ok b); cbn; repeat split; auto; discriminate.
+Qed.
+
 Lemma avail_cases cfg st r st' o :
   shares_available cfg st r = (st', o) ->
   (o <> AOk /\ st' = st) \/
@@ -150,6 +182,13 @@ Proof.
   apply exchange_cases in E as [(Hu & _)|(_ & _ & b & _ & Hb & _)]; [exact Hu|]. exfalso. eapply Ho. exact Hb.
 Qed.
 
+Theorem failed_hash_leaves_nothing cfg st r :
+  (forall h d, snd (exchange_get_by_hash cfg st r) <> XHeader h d) -> unchanged st (fst (exchange_get_by_hash cfg st r)).
+Proof.
+  destruct (exchange_get_by_hash cfg st r) as [st' o] eqn:E. cbn. intros Ho.
+  apply hash_cases in E as [(Hu & _)|(_ & _ & b & _ & Hb & _)]; [exact Hu|]. exfalso. eapply Ho. exact Hb.
+Qed.
+
 (** * Histories *)
 (** every endpoint answers a request for height h with the block of height h *)
 Definition well_served (o : op) : Prop :=
@@ -180,7 +219,7 @@ Section Inv.
 
   Lemma inv_step st o : well_served o -> inv st -> inv (step cfg st o).
   Proof.
-    intros Hws [Honce Hpub Hsrc Hwin]. destruct o as [ev|r|r]; cbn [step].
+    intros Hws [Honce Hpub Hsrc Hwin]. destruct o as [ev|r|r|r]; cbn [step].
     - destruct (handle cfg st ev) as [st' oc] eqn:E. cbn [fst].
       apply handle_cases in E as [(_ & (Hs & Hp & Hh & Hg) & _)|Hproc].
       + constructor; rewrite ?Hs, ?Hp, ?Hg; auto.
@@ -228,6 +267,19 @@ Section Inv.
           -- right. rewrite Hg. apply in_app_iff. right. left. reflexivity.
         * intros h d Hl. rewrite Hs in Hl. apply lookup_put_inv in Hl as [Hl|(-> & -> & _)]; [apply Hwin with h; exact Hl|].
           cbn. split; [reflexivity|]. intros Ha. destruct Hw as [Hw|Hw]; congruence.
+    - destruct (exchange_get_by_hash cfg st r) as [st' oc] eqn:E. cbn [fst].
+      apply hash_cases in E as [((Hs & Hp & Hh & Hg) & _)|Hst].
+      + constructor; rewrite ?Hs, ?Hp, ?Hg; auto.
+        intros p Hin. destruct (Hpub p Hin) as (d & Hl & Hd). exists d. rewrite Hs. auto.
+      + destruct Hst as (_ & _ & b & _ & _ & _ & _ & _ & Hw & Hs & Hp & _ & Hg).
+        constructor.
+        * rewrite Hp. exact Honce.
+        * intros p Hin. rewrite Hp in Hin. eapply stored_as_put; [exact Hs|]. apply Hpub. exact Hin.
+        * intros h d Hl. rewrite Hs in Hl. apply lookup_put_inv in Hl as [Hl|(-> & -> & _)].
+          -- destruct (Hsrc h d Hl) as [(p & Hin & Hph & Hpd)|Hgv]; [left; exists p; rewrite Hp; auto|right; rewrite Hg; apply in_app_iff; left; exact Hgv].
+          -- right. rewrite Hg. apply in_app_iff. right. left. reflexivity.
+        * intros h d Hl. rewrite Hs in Hl. apply lookup_put_inv in Hl as [Hl|(-> & -> & _)]; [apply Hwin with h; exact Hl|].
+          cbn. split; [reflexivity|]. intros Ha. destruct Hw as [Hw|Hw]; congruence.
   Qed.
 
   Lemma inv_run os : Forall well_served os -> forall st, inv st -> inv (run cfg st os).
@@ -247,6 +299,7 @@ Section Chain.
     | OpCore ev => match e_fetch ev with Some b => b_dah b = f (b_height b) | None => True end
     | OpExchange r => match x_fetch r with Some b => b_dah b = f (b_height b) | None => True end
     | OpAvail r => a_dah r = f (a_height r)
+    | OpHash r => match h_fetch r with Some b => b_dah b = f (b_height b) | None => True end
     end.
 
   (** consistent consensus blocks: the header's data hash is the hash of the square's DAH *)
@@ -266,7 +319,7 @@ Section Chain.
 
   Lemma cinv_step st o : on_chain o -> cinv st -> cinv (step cfg st o).
   Proof.
-    intros Hc [Hst Hgv Hpb]. destruct o as [ev|r|r]; cbn [step].
+    intros Hc [Hst Hgv Hpb]. destruct o as [ev|r|r|r]; cbn [step].
     - destruct (handle cfg st ev) as [st' oc] eqn:E. cbn [fst].
       apply handle_cases in E as [(_ & (Hs & Hp & Hh & Hg) & _)|Hproc].
       + constructor; rewrite ?Hs, ?Hp, ?Hg; auto.
@@ -310,6 +363,20 @@ Section Chain.
              ++ exists w. split; [reflexivity|]. rewrite (Hst _ _ El). symmetry. exact Hc.
              ++ eexists. split; [reflexivity|reflexivity].
         * rewrite Hp. exact Hpb.
+    - destruct (exchange_get_by_hash cfg st r) as [st' oc] eqn:E. cbn [fst].
+      apply hash_cases in E as [((Hs & Hp & Hh & Hg) & _)|Hstd].
+      + constructor; rewrite ?Hs, ?Hp, ?Hg; auto.
+        intros h x Hin. destruct (Hgv h x Hin) as [Hx (d & Hl & Hd)]. split; [exact Hx|]. exists d. rewrite Hs. auto.
+      + destruct Hstd as (_ & _ & b & Hf & _ & _ & _ & _ & _ & Hs & Hp & _ & Hg).
+        cbn in Hc. rewrite Hf in Hc. constructor.
+        * intros h d Hl. rewrite Hs in Hl. apply lookup_put_inv in Hl as [Hl|(-> & -> & _)]; [apply Hst; exact Hl|exact Hc].
+        * intros h x Hin. rewrite Hg in Hin. apply in_app_iff in Hin as [Hin|[Heq|[]]].
+          -- destruct (Hgv h x Hin) as [Hx Hsa]. split; [exact Hx|]. eapply stored_as_put; [exact Hs|exact Hsa].
+          -- inversion Heq; subst. split; [exact Hc|]. unfold stored_as. rewrite Hs, lookup_put_same.
+             destruct (lookup (b_height b) (store st)) as [w|] eqn:El.
+             ++ exists w. split; [reflexivity|]. rewrite (Hst _ _ El). symmetry. exact Hc.
+             ++ eexists. split; [reflexivity|reflexivity].
+        * rewrite Hp. exact Hpb.
   Qed.
 
   Lemma cinv_run os : Forall on_chain os -> forall st, cinv st -> cinv (run cfg st os).
@@ -320,7 +387,7 @@ Section Chain.
 
   Lemma pubs_consistent_step st o : consistent o -> pubs_consistent st -> pubs_consistent (step cfg st o).
   Proof.
-    intros Hc Hp. destruct o as [ev|r|r]; cbn [step].
+    intros Hc Hp. destruct o as [ev|r|r|r]; cbn [step].
     - destruct (handle cfg st ev) as [st' oc] eqn:E. cbn [fst].
       apply handle_cases in E as [(_ & (_ & Hpp & _) & _)|Hproc].
       + unfold pubs_consistent. rewrite Hpp. exact Hp.
@@ -333,6 +400,9 @@ Section Chain.
     - destruct (shares_available cfg st r) as [st' oc] eqn:E. cbn [fst].
       apply avail_cases in E as [(_ & ->)|(_ & _ & _ & _ & Hpp & _)]; [exact Hp|].
       unfold pubs_consistent; rewrite Hpp; exact Hp.
+    - destruct (exchange_get_by_hash cfg st r) as [st' oc] eqn:E. cbn [fst].
+      apply hash_cases in E as [((_ & Hpp & _) & _)|(_ & _ & b & _ & _ & _ & _ & _ & _ & _ & Hpp & _)];
+        unfold pubs_consistent; rewrite Hpp; exact Hp.
   Qed.
 
   Lemma pubs_consistent_run os : Forall consistent os -> forall st, pubs_consistent st -> pubs_consistent (run cfg st os).
@@ -342,13 +412,15 @@ End Chain.
 (** * Monotonicity: what is stored stays, publications are only appended, a crash is final *)
 Lemma step_store_mono cfg st o h w : lookup h (store st) = Some w -> lookup h (store (step cfg st o)) = Some w.
 Proof.
-  intros Hl. destruct o as [ev|r|r]; cbn [step].
+  intros Hl. destruct o as [ev|r|r|r]; cbn [step].
   - destruct (handle cfg st ev) as [st' oc] eqn:E. cbn [fst].
     apply handle_cases in E as [(_ & (Hs & _) & _)|(_ & _ & _ & _ & _ & b & sy & _ & _ & _ & _ & _ & _ & Hs & _)]; rewrite Hs; auto using lookup_put_mono.
   - destruct (exchange_get cfg st r) as [st' oc] eqn:E. cbn [fst].
     apply exchange_cases in E as [((Hs & _) & _)|(_ & _ & b & _ & _ & _ & _ & _ & _ & Hs & _)]; rewrite Hs; auto using lookup_put_mono.
   - destruct (shares_available cfg st r) as [st' oc] eqn:E. cbn [fst].
     apply avail_cases in E as [(_ & ->)|(_ & _ & _ & _ & _ & _ & _ & [(Hs & _)|(_ & Hs)])]; try rewrite Hs; auto using lookup_put_mono.
+  - destruct (exchange_get_by_hash cfg st r) as [st' oc] eqn:E. cbn [fst].
+    apply hash_cases in E as [((Hs & _) & _)|(_ & _ & b & _ & _ & _ & _ & _ & _ & Hs & _)]; rewrite Hs; auto using lookup_put_mono.
 Qed.
 
 Lemma run_store_mono cfg os : forall st h w, lookup h (store st) = Some w -> lookup h (store (run cfg st os)) = Some w.
@@ -356,7 +428,7 @@ Proof. induction os as [|o os IH]; intros st h w H; [exact H|]. cbn. apply IH, s
 
 Lemma step_published_mono cfg st o : exists l, published (step cfg st o) = published st ++ l.
 Proof.
-  destruct o as [ev|r|r]; cbn [step].
+  destruct o as [ev|r|r|r]; cbn [step].
   - destruct (handle cfg st ev) as [st' oc] eqn:E. cbn [fst].
     apply handle_cases in E as [(_ & (_ & Hp & _) & _)|(_ & _ & _ & _ & _ & b & sy & _ & _ & _ & _ & _ & _ & _ & Hp & _)]; rewrite Hp.
     + exists []. rewrite app_nil_r. reflexivity.
@@ -365,6 +437,8 @@ Proof.
     apply exchange_cases in E as [((_ & Hp & _) & _)|(_ & _ & b & _ & _ & _ & _ & _ & _ & _ & Hp & _)]; rewrite Hp; exists []; rewrite app_nil_r; reflexivity.
   - destruct (shares_available cfg st r) as [st' oc] eqn:E. cbn [fst].
     apply avail_cases in E as [(_ & ->)|(_ & _ & _ & _ & Hp & _)]; [|rewrite Hp]; exists []; rewrite app_nil_r; reflexivity.
+  - destruct (exchange_get_by_hash cfg st r) as [st' oc] eqn:E. cbn [fst].
+    apply hash_cases in E as [((_ & Hp & _) & _)|(_ & _ & b & _ & _ & _ & _ & _ & _ & _ & Hp & _)]; rewrite Hp; exists []; rewrite app_nil_r; reflexivity.
 Qed.
 
 Lemma run_published_mono cfg os : forall st, exists l, published (run cfg st os) = published st ++ l.
@@ -377,10 +451,11 @@ Qed.
 
 Lemma step_crashed_mono cfg st o : crashed st = true -> crashed (step cfg st o) = true.
 Proof.
-  intros Hc. destruct o as [ev|r|r]; cbn [step].
+  intros Hc. destruct o as [ev|r|r|r]; cbn [step].
   - unfold handle. rewrite Hc. exact Hc.
   - unfold exchange_get. rewrite Hc. exact Hc.
   - unfold shares_available. rewrite Hc. exact Hc.
+  - unfold exchange_get_by_hash. rewrite Hc. exact Hc.
 Qed.
 
 Lemma run_crashed_mono cfg os : forall st, crashed st = true -> crashed (run cfg st os) = true.
@@ -455,6 +530,14 @@ Module Ex.
       OpAvail (mkareq 7 70 true false GDeadline true);
       OpAvail (mkareq 7 70 true false GSquare true);
       OpCore (ev 7 0 (Some (blk 7 70 true)) (Some false) true) ].   (* already stored through the availability path *)
+  (* header requests by hash: the endpoint serves a block with another hash, then fails to serve the commit, then
+     serves the requested block; the later announcement of that height is a duplicate *)
+  Definition hhist : list op :=
+    [ OpHash (mkhreq (Some (blk 9 90 true)) true false true);
+      OpHash (mkhreq (Some (blk 8 80 true)) false true true);
+      OpHash (mkhreq (Some (blk 8 80 true)) true true true);
+      OpCore (ev 8 0 (Some (blk 8 80 true)) (Some false) true);
+      OpCore (ev 9 0 (Some (blk 9 91 true)) (Some false) true) ].
   Definition pruned := run (mkcfg false) init hist.
   Definition arch := run (mkcfg true) init hist.
 End Ex.
@@ -466,6 +549,15 @@ Lemma nonvacuous_history :
   lookup 4 (store Ex.arch) = Some (mkstored 40 false false false) /\ lookup 7 (store Ex.pruned) = Some (mkstored 70 true true false) /\
   given Ex.pruned = [(7, 70)] /\
   fst (run_codes (mkcfg false) init Ex.hist) = [2; 7; 1; 4; 6; 7; 3; 32; 30; 1].
+Proof. repeat split; try (vm_compute; reflexivity); repeat constructor. Qed.
+
+Lemma nonvacuous_by_hash :
+  Forall well_served Ex.hhist /\ Forall (consistent (fun d => 1000 + d)) Ex.hhist /\
+  fst (run_codes (mkcfg false) init Ex.hhist) = [20; 20; 22; 1; 7] /\
+  store (run (mkcfg false) init (firstn 2 Ex.hhist)) = [] /\
+  lookup 8 (store (run (mkcfg false) init Ex.hhist)) = Some (mkstored 80 true true false) /\
+  lookup 9 (store (run (mkcfg false) init Ex.hhist)) = Some (mkstored 91 true true false) /\
+  given (run (mkcfg false) init Ex.hhist) = [(8, 80)] /\ map p_height (published (run (mkcfg false) init Ex.hhist)) = [9].
 Proof. repeat split; try (vm_compute; reflexivity); repeat constructor. Qed.
 
 (** * The statements over whole histories *)
